@@ -3,6 +3,7 @@ CONSTANTS
   TruncateBytesThenDecode = TRUE
   StopTimerNeedsFloat = FALSE
   RecorderConversionPartial = FALSE
+  ResultBoundAfterValidationOnly = FALSE
 INVARIANT NonInterference
 INVARIANT ObserversTotal
 INVARIANT StatsOnce
